@@ -779,6 +779,9 @@ impl InstrFormat for StdHooks06 {
     }
 
     fn write_instr(&self, f: &mut BinWriter, emitter: &dyn Emitter, instr: &RawInstr) -> WriteResult {
+        if instr.param_mask != 0 {
+            return Err(emitter.as_sized().emit(error!("instructions have no parameter mask in this format (mask {:#x} would be lost)", instr.param_mask)));
+        }
         if instr.args_blob.len() != 12 {
             // (possible through a user-supplied signature)
             return Err(emitter.as_sized().emit(error!(
@@ -831,6 +834,9 @@ impl InstrFormat for StdHooks10 {
     }
 
     fn write_instr(&self, f: &mut BinWriter, emitter: &dyn Emitter, instr: &RawInstr) -> WriteResult {
+        if instr.param_mask != 0 {
+            return Err(emitter.as_sized().emit(error!("instructions have no parameter mask in this format (mask {:#x} would be lost)", instr.param_mask)));
+        }
         if instr.opcode == 0xFFFF {
             return Err(emitter.as_sized().emit(error!("opcode 65535 is reserved for the end-of-script marker")));
         }
